@@ -45,7 +45,20 @@ def cases(tier: str, seed: int) -> List[Dict[str, Any]]:
                 paths.append(str(d))
     for p in paths:
         out.append({'part': 'P', 'path': p})
+    for name in DIRECTED:
+        out.append({'part': 'D', 'name': name})
     return out
+
+
+# hand-written projects: inputs that supply the same top-level name more than once
+DIRECTED: Dict[str, Any] = {
+    'same-root-module-twice': ({'a/util.py': 'class Old:\n    def m(self): pass\n', 'b/util.py': 'class New:\n    def m(self): pass\nclass Sub(New): pass\n', 'c/user.py': 'import util\nclass U(util.New): pass\n'},
+                               ['a/util.py', 'b/util.py', 'c/user.py']),
+    'same-root-package-twice': ({'a/pkg/__init__.py': 'class Old: pass\n', 'a/pkg/m.py': 'x = 1\n', 'b/pkg/__init__.py': 'class New: pass\n', 'b/pkg/n.py': 'from . import New\nclass S(New): pass\n'}, ['a/pkg', 'b/pkg']),
+    'root-module-and-package': ({'a/util.py': 'class InModule: pass\n', 'b/util/__init__.py': 'class InPackage: pass\n', 'b/util/sub.py': 'y = 2\n'}, ['a/util.py', 'b/util']),
+    'root-package-and-module': ({'a/util.py': 'class InModule: pass\n', 'b/util/__init__.py': 'class InPackage: pass\n', 'b/util/sub.py': 'y = 2\n'}, ['b/util', 'a/util.py']),
+    'same-path-twice': ({'a/pkg/__init__.py': 'class C: pass\n', 'a/pkg/m.py': 'from . import C\nclass D(C): pass\n'}, ['a/pkg', 'a/pkg']),
+}
 
 
 def worker_init() -> None:
@@ -83,6 +96,31 @@ def run_case(case: Dict[str, Any]) -> core.Res:
     from vf.mon import registry
     res = core.Res()
     registry.counters.clear()
+    if case['part'] == 'D':
+        import shutil
+        import tempfile
+        files, roots = DIRECTED[case['name']]
+        base = Path(tempfile.mkdtemp(prefix='vf02d-'))
+        try:
+            for rel, text in files.items():
+                pth = base / rel
+                pth.parent.mkdir(parents=True, exist_ok=True)
+                pth.write_text(text)
+            try:
+                system = projrun.build_system([base / r for r in roots])
+            except Exception as e:  # noqa: BLE001
+                res.v(f'C02:analysis-raises:{type(e).__name__}', f'directed:{case["name"]}: analysis raised {e!r}', traceback=traceback.format_exc()[-2000:], sources=files)
+                return res
+            _judge(res, system, f'directed:{case["name"]}', {'project': case['name'], 'sources': files, 'roots': roots})
+            res.distinct('D:' + case['name'])
+            res.c('evaluations')
+            res.c('directed_projects')
+        finally:
+            shutil.rmtree(base, ignore_errors=True)
+        res.sample({'directed': case['name']})
+        for k, v in registry.counters.items():
+            res.c(k, v)
+        return res
     if case['part'] == 'P':
         try:
             system = projrun.build_system([Path(case['path'])])
